@@ -44,6 +44,30 @@ CLAIMS = {
         "text": "2..5 coroutines x 0..6 yields (plain / until(unique ts) / cancel, in Running and in syscall state) resumed in a generated order on one thread; each Running-state yield must report exactly its own request.",
         "note": "Signal-driven cancel represented by a direct Suspender::cancel() call; fresh thread per case.",
     },
+    "C10": {
+        "engine": "vcore C10",
+        "technique": PBT + ": generated coroutine programs x driver scripts with an event-log oracle",
+        "text": "1..8 generated coroutine programs (suspend, delay, panic, return, priorities) under a generated driver (timed/untimed passes, sleeps, cancels): every result once under its own id with its own value/message, no step before its wake-up time, a pass that starts after the wake-up time and runs dry has resumed the coroutine, a cancelled coroutine never logs again.",
+        "note": "One scheduler per process at a time; cancels are issued between passes; real clock with exact lower bounds (no slack needed) and no upper-bound timing claims.",
+    },
+    "C11": {
+        "engine": "vcore C11",
+        "technique": PBT + ": stateful histories on a standalone pool with liveness tokens in coroutine-local storage",
+        "text": "Generated submit/pass/sleep/cancel histories (task bodies return, panic, delay, suspend): running size <= max after every step, == live worker coroutines after every pass that ran dry, 0 and prompt stop once all work is done or cancelled.",
+        "note": "min_size = 0 and finite keep-alive only (an idle core worker spins inside the scheduling pass and never hands control back to a single-threaded driver); one pool per process at a time.",
+    },
+    "C12": {
+        "engine": "vcore C12",
+        "technique": PBT + ": stateful histories on a standalone pool with helper-thread waiters",
+        "text": "Generated submit/pass/cancel/wait/stop(long|short) histories: states only move forward, submits after stop are rejected, stop reports success only when every accepted uncancelled task has finished, waiters are settled after stop.",
+        "note": "Standalone CoroutinePool (the EventLoops stop path is exercised by the runtime engines); waiters run on helper threads sharing the pool by reference as EventLoops does.",
+    },
+    "C25": {
+        "engine": "vcore C25",
+        "technique": PBT + ": model-based histories (HashMap model, drop-counting values)",
+        "text": "put/get/get_mut/remove/drop-coroutine histories over 3 real coroutines x 4 keys against a per-coroutine HashMap model; drop counters prove every value is dropped exactly once and exactly when its owner gives it up, including at coroutine drop.",
+        "note": "One value type per key.",
+    },
     "C28": {
         "engine": "vcore C28",
         "technique": PBT + ": algebraic laws over boundary-biased generated Durations/timevals",
